@@ -245,8 +245,14 @@ def run_history(spec):
         rec["args"].setdefault("cmp", 0)
         rec["args"]["plainTasks"] = not isinstance(m.tasks[0], RankedTask) if m.tasks and m.tasks[0] is not None else True
         if "ranks" in op:
+            # another visiting order of the internal sets: the model of this run has these ranks
             for t, r in zip(m.tasks, op["ranks"]):
                 t._verif_rank = r
+            cfg = _json.loads(_json.dumps(cfg))
+            for tc, r in zip(cfg["tasks"], op["ranks"]):
+                tc["rank"] = r
+            m.cfg = cfg
+            changed_cfg = True
         light = bool(op.get("light"))
         if kind == "rebuild":
             m = Model(cfg, plain=bool(op.get("plain", plain)))   # (of the possibly edited cfg)
